@@ -30,7 +30,7 @@ RESULT_CMP = ("pred", "spec", "acc", "stream", "evd", "pan")
 
 def result_prop(sweep, rule, expl, extra_tb=(), nontrivial=nt_parallel, cmp=RESULT_CMP):
     return {
-        "modes": [["sweep", sweep, "{seed}", "{tier}"]] + ([["sources", "{seed}", sweep]] if sweep in ("C01", "C02", "C03", "C04", "C06", "C07") else []),
+        "modes": [["sweep", sweep, "{seed}", "{tier}"]] + ([["sources", "{seed}", sweep]] if sweep in ("C01", "C02", "C03", "C04", "C06", "C07", "C10", "C13") else []),
         "compare": cmp,
         "nontrivial": nontrivial,
         "rule": rule,
